@@ -1,6 +1,7 @@
 package engines
 
 import (
+	"reflect"
 	"bytes"
 	"encoding/base64"
 	"encoding/hex"
@@ -953,6 +954,19 @@ func flashLenient(raw []byte, name, server string) flashWire {
 	return w
 }
 
+type flashValidator struct{}
+
+func (flashValidator) Validate(out any) error {
+	v := reflect.ValueOf(out)
+	for v.Kind() == reflect.Pointer {
+		v = v.Elem()
+	}
+	if v.Kind() != reflect.Struct {
+		return errors.New("validator: (nil " + v.Kind().String() + ") is not a struct")
+	}
+	return nil
+}
+
 // flashDefaultPath: RFC 6265 5.1.4.
 func flashDefaultPath(reqPath string) string {
 	if i := strings.IndexAny(reqPath, "?#"); i >= 0 {
@@ -1030,6 +1044,11 @@ func flashMain(s *simrt.Sim, info *harness.RunInfo) {
 	ehMode := simrt.PickS(s, 0, 0, 1, 2)
 	// (comma splitting is a matter of the application's binders; old input is taken as submitted)
 	fcfg := fiber.Config{EnableSplittingOnParsers: s.Chance(300)}
+	if s.Chance(200) {
+		// the application validates what it binds; as the usual validators do, this one refuses what is not a struct
+		fcfg.StructValidator = flashValidator{}
+		s.Logf("cfg structValidator=true")
+	}
 	if ehMode > 0 {
 		fcfg.ErrorHandler = func(c fiber.Ctx, err error) error {
 			if ehMode == 2 {
@@ -1103,6 +1122,11 @@ func flashMain(s *simrt.Sim, info *harness.RunInfo) {
 		record(c, op)
 		// a consumer that has looked at the messages and then fails
 		switch {
+		case op.failCode == -2:
+			// the page ends in a file that is not there (any more)
+			return c.SendFile("/nonexistent-dir-for-flash/report.pdf")
+		case op.failCode == -3:
+			return c.Download("/nonexistent-dir-for-flash/report.pdf", "report.pdf")
 		case op.failCode < 0:
 			return errors.New("consumer failed after reading the messages")
 		case op.failCode > 0:
@@ -1396,7 +1420,7 @@ func (r *flashRun) request(bi int, kind string, depth int) {
 	hopping := kind == "hop" || kind == "hop2"
 	if !hopping {
 		// non-failing handler first; 503 and a plain error are server failures, 404 / 409 the control
-		op.failCode = simrt.PickS(s, 0, 0, 0, 0, 503, -1, 404, 409, 500)
+		op.failCode = simrt.PickS(s, 0, 0, 0, 0, 503, -1, 404, 409, 500, -2, -3)
 	}
 	// consumers also live below the root: the client scopes cookies by path
 	path := "/" + kind
@@ -1461,6 +1485,8 @@ func (r *flashRun) request(bi int, kind string, depth int) {
 	}
 	what := "GET " + path
 	switch {
+	case op.failCode <= -2:
+		what += " (handler reads the messages, then ends in SendFile / Download of a file that does not exist)"
 	case op.failCode < 0:
 		what += " (handler reads the messages, then returns a plain error)"
 	case op.failCode > 0:
